@@ -10,7 +10,7 @@ CONSTANTS
   Eager = FALSE
   ArmInFlush = TRUE
   WakeAfterPush = TRUE
-  Overflow = FALSE
+  Overflow = TRUE
 SPECIFICATION FairSpec
 INVARIANTS PendingBound TypeOK NeverStuck
 PROPERTIES NoLostWake
